@@ -75,6 +75,20 @@ func decVarDef(name string) string {
 	return fail("package variable %s: unsupported initialiser", name)
 }
 
+// newDecLit: `New(coeff, exponent)` with constant arguments as a Dec literal (what SetFinite makes of them)
+func newDecLit(v *ast.CallExpr, who string) (string, bool) {
+	c, e := info.Types[v.Args[0]].Value, info.Types[v.Args[1]].Value
+	if c == nil || e == nil {
+		return "", false
+	}
+	neg := constant.Sign(c) < 0
+	abs := c
+	if neg {
+		abs = constant.UnaryOp(token.SUB, c, 0)
+	}
+	return fmt.Sprintf("({ form := %s, neg := %v, exp := %s, coeff := %s } : Dec)", formLit(constVal("Finite"), who), neg, e.ExactString(), abs.ExactString()), true
+}
+
 func goSourceOf(fd *ast.FuncDecl) string {
 	p := fset.Position(fd.Pos())
 	f := p.Filename
@@ -124,8 +138,11 @@ func transImp(sig *isig) string {
 			v.kind = vOptSrc
 		case pOptCell:
 			v.kind = vOptCell
-		case pDecIO:
+		case pDecIO, pDecIn:
 			v.kind, v.cat, v.addrParam = vVal, cDec, true
+			v.readOnly = p.kind == pDecIn
+		case pEDIO:
+			v.kind, v.cat = vVal, cED
 		case pBigIO:
 			v.kind, v.cat = vVal, cBig
 		case pIntIO:
@@ -153,6 +170,14 @@ func transImp(sig *isig) string {
 	}
 	var body []string
 	t.cur = &body
+	for _, p := range sig.params {
+		if p.kind == pBigIn {
+			// a signed big integer: magnitude and sign flag
+			t.env.vars[p.name] = &ivar{cat: cInt, kind: vVal, assigned: true}
+			t.defineSign("local:"+p.name, "(decide ("+p.name+" < 0))")
+			t.define(p.name, cBig, vVal, "(Int.natAbs "+p.name+")")
+		}
+	}
 	t.stmts(sig.fd.Body.List, func() {
 		if sig.nres() == 0 || (sig.retRecv && false) {
 			t.emit("%s", t.retWrap("()"))
@@ -208,8 +233,24 @@ func transImp(sig *isig) string {
 }
 
 func genImp() string {
+	return genImpGroup(impList, "import ApdVerif.Gen.ImpPrelude\n", "imp")
+}
+
+// genImpTrans: the composite functions (Sqrt, Cbrt, Pow, …), in a second file that imports the first
+func genImpTrans() string {
+	splitAfterLoops = true
+	defer func() { splitAfterLoops = false }()
+	return genImpGroup(impTransList, "import ApdVerif.Gen.Imp\nimport ApdVerif.Gen.ImpTransPrelude\n", "imptrans")
+}
+
+var decVarsEmitted = map[string]bool{}
+
+// splitAfterLoops: emit what follows a loop as an auxiliary definition (group imptrans)
+var splitAfterLoops bool
+
+func genImpGroup(list []string, imports, group string) string {
 	impDefs = nil
-	for _, k := range impList {
+	for _, k := range list {
 		fd := funcs[k]
 		if fd == nil {
 			fail("imp: function %s not found", k)
@@ -230,18 +271,21 @@ func genImp() string {
 	}
 	defs := impDefs
 	var b strings.Builder
-	b.WriteString("import ApdVerif.Gen.ImpPrelude\n")
-	b.WriteString("/-! GENERATED by harness/cmd/xlate (group imp) from the Go source of cockroachdb/apd — do not edit.\n")
+	b.WriteString(imports)
+	b.WriteString("/-! GENERATED by harness/cmd/xlate (group " + group + ") from the Go source of cockroachdb/apd — do not edit.\n")
 	b.WriteString("Store-level programs, translated statement by statement with the order of evaluation preserved\n")
 	b.WriteString("(scheme: harness/cmd/xlate/imp.go; hand-written names used: Gen/ImpPrelude.lean). -/\n")
 	b.WriteString("set_option linter.unusedVariables false\n")
 	b.WriteString("namespace Apd.Gen.ImpG\nopen Apd Apd.Imp\n\n")
 	var dv []string
 	for n := range decVarsNeeded {
-		dv = append(dv, n)
+		if !decVarsEmitted[n] {
+			dv = append(dv, n)
+		}
 	}
 	sort.Strings(dv)
 	for _, n := range dv {
+		decVarsEmitted[n] = true
 		fmt.Fprintf(&b, "/-- package variable `%s` -/\ndef %s : Dec := %s\n\n", n, n, decVarDef(n))
 	}
 	for _, d := range defs {
